@@ -23,6 +23,7 @@ rounding; the theorems give the exact identity (efficient score = GLM score, row
 -/
 import ZepidVerif.Model.Tmle
 import ZepidVerif.Lemmas.Tmle
+import ZepidVerif.Lemmas.TmleFitBridge
 import Mathlib.Algebra.Order.Field.Basic
 import Mathlib.Algebra.Order.Field.Rat
 import Mathlib.Algebra.Order.AbsoluteValue.Basic
@@ -294,6 +295,42 @@ example : tmle_unit_unbound (tmle_unit_bounds (13 : ℚ) 10 20 (1/2000)) 10 20 =
 
 example : |tmle_unit_unbound (tmle_unit_bounds (10 : ℚ) 10 20 (1/2000)) 10 20 - 10| ≤ 1/2000 * (20 - 10) :=
   unit_roundtrip_clip 10 10 20 (1/2000) (by norm_num) (by norm_num) (by norm_num) (by norm_num) (by norm_num)
+
+/-! ### Tie to the source: `TMLE.fit` regenerated on every run computes the model -/
+
+/-- The definition regenerated from the text of `TMLE.fit` (binary outcome: clever covariates, targeted predictions,
+    plug-ins, the three influence curves, standard errors and limits) returns exactly what the model `fitBinary`,
+    `zalpha`, `ciLin`, `ciLog` returns — so every theorem of this file, of C02 and of C06 about the model is a theorem
+    about the code as it is written today. -/
+theorem tmle_fit_generated_binary [Transc F] (σ lg ppf : F → F) (alpha e1 e2 mini maxi : F) (l : List (TRow F)) :
+    tmle_fit_binary σ lg ppf false alpha e1 e2 mini maxi l (fun r => r.g1) (fun r => r.g0) (fun _ => 1) (fun _ => 1) qa
+      = ((fitBinary σ lg e1 e2 l).rd, (fitBinary σ lg e1 e2 l).rdSe,
+         ciLin (fitBinary σ lg e1 e2 l).rd (zalpha ppf alpha) (fitBinary σ lg e1 e2 l).rdSe,
+         (fitBinary σ lg e1 e2 l).rr, (fitBinary σ lg e1 e2 l).rrSe,
+         ciLog (fitBinary σ lg e1 e2 l).rr (zalpha ppf alpha) (fitBinary σ lg e1 e2 l).rrSe,
+         (fitBinary σ lg e1 e2 l).or_, (fitBinary σ lg e1 e2 l).orSe,
+         ciLog (fitBinary σ lg e1 e2 l).or_ (zalpha ppf alpha) (fitBinary σ lg e1 e2 l).orSe) :=
+  tmle_fit_binary_eq σ lg ppf alpha e1 e2 mini maxi l
+
+theorem tmle_fit_generated_continuous [Transc F] (σ lg ppf : F → F) (alpha e1 e2 mini maxi : F) (l : List (TRow F)) :
+    tmle_fit_continuous σ lg ppf false alpha e1 e2 mini maxi l (fun r => r.g1) (fun r => r.g0) (fun _ => 1) (fun _ => 1) qa
+      = ((fitContinuous σ lg e1 e2 mini maxi l).rd, (fitContinuous σ lg e1 e2 mini maxi l).rdSe,
+         ciLin (fitContinuous σ lg e1 e2 mini maxi l).rd (zalpha ppf alpha) (fitContinuous σ lg e1 e2 mini maxi l).rdSe) :=
+  tmle_fit_continuous_eq σ lg ppf alpha e1 e2 mini maxi l
+
+/-- with missing outcomes and a missingness model the generated code first forms the total probabilities `g·m`
+    (the model's `gTotal true`) and is otherwise the same function of them -/
+theorem tmle_fit_generated_useMiss [Transc F] (σ lg ppf : F → F) (alpha e1 e2 mini maxi : F) (l : List (TRow F))
+    (g1W g0W m1W m0W qaw : TRow F → F) :
+    tmle_fit_binary σ lg ppf true alpha e1 e2 mini maxi l g1W g0W m1W m0W qaw
+      = tmle_fit_binary σ lg ppf false alpha e1 e2 mini maxi l (fun r => gTotal true (g1W r) (m1W r))
+          (fun r => gTotal true (g0W r) (m0W r)) m1W m0W qaw ∧
+    tmle_fit_continuous σ lg ppf true alpha e1 e2 mini maxi l g1W g0W m1W m0W qaw
+      = tmle_fit_continuous σ lg ppf false alpha e1 e2 mini maxi l (fun r => gTotal true (g1W r) (m1W r))
+          (fun r => gTotal true (g0W r) (m0W r)) m1W m0W qaw :=
+  ⟨by simpa [gTotal] using tmle_fit_binary_useMiss σ lg ppf alpha e1 e2 mini maxi l g1W g0W m1W m0W qaw,
+   by simpa [gTotal] using tmle_fit_continuous_useMiss σ lg ppf alpha e1 e2 mini maxi l g1W g0W m1W m0W qaw⟩
+
 
 /-! ### instantiation at ℝ: `σ = 1/(1+exp(−x))`, `lg = log ∘ odds` satisfy the abstract hypotheses -/
 section Real
